@@ -1,5 +1,6 @@
 import Driver.Util
 import Driver.BPE
+import Driver.EM
 import Driver.Coo
 import Driver.Sliding
 import Driver.LZ
@@ -24,6 +25,7 @@ namespace Driver
 
 def handlers : List (String → Json → Option (R Json)) := [
   Driver.BPE.handle,
+  Driver.EM.handle,
   Driver.Coo.handle,
   Driver.Sliding.handle,
   Driver.LZ.handle,
